@@ -284,7 +284,7 @@ def main():
              "kind_free_text": "explicit TLA+ specifications model-checked with TLC 1.8; trace validation and replay of TLC-generated behaviours bind them to the Python implementation (harness/)"},
         ],
         "checks": checks,
-        "notes": "Growth checks beyond the listed properties (same contract, not listed under checks because they belong to none of the twenty ids): ./check X01 (aegean CLI machine), X02 (one Python process: history independence of 22 entry points), X03 (MIMAS CLI dispatch + masking polarity), X04 (BANE/AeRes/regroup/SR6 CLI machines), X05 (the tools as one workspace: routes that denote the same artefact), X06 (FITS header interpretation), X07 (marching-squares contour walker); tools/run_all.sh quick X01 X02 X03 X04 X05 X06 X07. Every verdict is TLC's (invariant violation or rejected trace) or a mismatch between the real code and a state TLC produced. See DESIGN.md. known_findings.json lists repaired (fixed:) and recorded defects.",
+        "notes": "Growth checks beyond the listed properties (same contract, not listed under checks because they belong to none of the twenty ids): ./check X01 (aegean CLI machine), X02 (one Python process: history independence of 22 entry points), X03 (MIMAS CLI dispatch + masking polarity), X04 (BANE/AeRes/regroup/SR6 CLI machines), X05 (the tools as one workspace: routes that denote the same artefact), X06 (FITS header interpretation), X07 (marching-squares contour walker), X08 (island_itergen / classify_catalog: a flat catalogue becomes one island at a time); tools/run_all.sh quick X01 X02 X03 X04 X05 X06 X07 X08. Every verdict is TLC's (invariant violation or rejected trace) or a mismatch between the real code and a state TLC produced. See DESIGN.md. known_findings.json lists repaired (fixed:) and recorded defects.",
         "not_applicable": [{"property_id": p, "reason": NOT_YET} for p in ALL if p not in CHECKS],
     }
     with open(os.path.join(HERE, "MANIFEST.json"), "w") as f:
